@@ -25,11 +25,12 @@ package lunarcontext
 //@ ghost field memoryState.gAdm gmap[string]int64    // cost admitted in the current epoch of the key
 //@ ghost field memoryState.gEnd gmap[string]int64    // end of the current epoch (stored start * 1e9 + window)
 //@ ghost field memoryState.gLast gmap[string]int64   // time of the last admission
+//@ ghost field memoryState.gRestarted gmap[string]bool // did the latest AtomicIncWindow on this key start a new window
 //@ ghost field memoryState.gWin gmap[string]int64    // the window length the key is used with (fixed)
 
 //@ monitor memoryState.mutex
 //@   self p
-//@   protects smap(p.contextMemory.(*contextMemory).ctx), gAdm, gEnd, gLast
+//@   protects smap(p.contextMemory.(*contextMemory).ctx), gAdm, gEnd, gLast, gRestarted
 //@   invariant[typed] forall(k, string, (hasC(p, k) ==> typeis(smapget(cmOf(p).ctx, ckey(k)), int64)) && (hasW(p, k) ==> typeis(smapget(cmOf(p).ctx, wkey(k)), int64)))
 //@   invariant[adm]   forall(k, string, cntOf(p, k) == p.gAdm[k])
 //@   invariant[last]  forall(k, string, p.gLast[k] < p.gEnd[k] && p.gLast[k] <= now())
@@ -42,8 +43,10 @@ package lunarcontext
 //@   results newCount, restarted, err
 //@   requires typeis(p.contextMemory, *contextMemory) && cmOf(p) != nil
 //@   requires windowSize > 0 && windowSize % 1000000000 == 0 && windowSize == p.gWin[key] && incrBy >= 0
-//@   modifies smapof(cmOf(p).ctx), p.gAdm, p.gEnd, p.gLast, now
+//@   modifies smapof(cmOf(p).ctx), p.gAdm, p.gEnd, p.gLast, p.gRestarted, now
+//@   on return do p.gRestarted[key] = restarted
 //@   on return when err == nil do p.gAdm[key] = ite(restarted, 0, atlock(p.gAdm[key])) + incrBy; p.gLast[key] = currentTime; p.gEnd[key] = windowStart.Unix() * 1000000000 + windowSize
+//@   ensures[restart-recorded] p.gRestarted[key] == restarted
 //@   ensures[restart]  seq: restarted <==> (old(hasW(p, key)) && currentTime - old(valW(p, key)) * 1000000000 >= windowSize)
 //@   ensures[gate]     seq: err == nil ==> newCount == ite(restarted, 0, old(cntOf(p, key))) + incrBy && newCount <= maxAllowed && cntOf(p, key) == newCount
 //@   ensures[refuse]   seq: err != nil ==> ite(restarted, 0, old(cntOf(p, key))) + incrBy > maxAllowed && cntOf(p, key) == old(cntOf(p, key)) && (hasW(p, key) <==> old(hasW(p, key))) && valW(p, key) == old(valW(p, key))
